@@ -113,12 +113,10 @@ Section Disp.
   Theorem C02_g_11_displacement :
     metric_nonorth_g_11 Rops Rx Bp hy dphidy cB tB bps = ex_ex dR dZ pR pZ.
   Proof. by_lemma g_11_displacement. Qed.
-  Theorem C02_g_12_displacement_partial :
-    bps = -1 -> metric_nonorth_g_12 Rops Rx Bp hy dphidy cB tB bps = ex_ey dR dZ pR pZ Rx Bp hy bps.
-  Proof. by_lemma g_12_displacement_bps_neg. Qed.
-  Theorem C02_g_12_displacement_wrong_sign :
-    bps = 1 -> metric_nonorth_g_12 Rops Rx Bp hy dphidy cB tB bps = - ex_ey dR dZ pR pZ Rx Bp hy bps.
-  Proof. by_lemma g_12_displacement_bps_pos. Qed.
+  (* both signs of bpsign (the pinned code had g_12 = - e_x.e_y for bpsign = +1: finding F12, repaired) *)
+  Theorem C02_g_12_displacement :
+    metric_nonorth_g_12 Rops Rx Bp hy dphidy cB tB bps = ex_ey dR dZ pR pZ Rx Bp hy bps.
+  Proof. by_lemma g_12_displacement. Qed.
 End Disp.
 
 (* non-vacuity: a concrete non-trivial point satisfies WF (3-4-5 angle, negative Bp) *)
@@ -132,5 +130,4 @@ Print Assumptions C02_closed_forms.
 Print Assumptions C02_yz_coupling_nonorth.
 Print Assumptions C02_yz_coupling_orth.
 Print Assumptions C02_g_11_displacement.
-Print Assumptions C02_g_12_displacement_partial.
-Print Assumptions C02_g_12_displacement_wrong_sign.
+Print Assumptions C02_g_12_displacement.
